@@ -22,6 +22,44 @@ let game_of_state (s : string) : game =
 let fbits s = Floatq.float_of_f32bits (int_of_string s)
 let close a b = Floatq.close ~rel:2e-3 ~abs:2e-3 a b
 
+(* a node below the recalled depth, built by hand: its menu must be the model's menu for its full history *)
+let () =
+  register "dmenu" (fun i o ->
+    let h = Stdlib.List.map H_game.edge_of_tok (split ',' i.(1)) in
+    let g = game_of_state o.(0) in
+    let impl = Stdlib.List.sort compare (split ',' (if Array.length o > 1 then o.(1) else "")) in
+    match Tree.node_menu g h with
+    | None -> [Mismatch "model has no menu here"]
+    | Some m ->
+      let ms = Stdlib.List.sort compare (Stdlib.List.map H_game.tok_of_edge m) in
+      if ms = impl then [] else
+        [Mismatch ("menu " ^ String.concat "," ms);
+         Specfail ("c10_menu_counts_raises_of_the_current_round",
+                   Printf.sprintf "after %s the node offers %s; with the raises of the current betting round counted the abstract game offers %s"
+                     i.(1) (String.concat "," impl) (String.concat "," ms))])
+
+(* a sampled tree scored under a profile with denormal opponent weights: only the statement about the recorded
+   regrets themselves is judged (finite, inside the clamp, no abort); the estimator comparison makes no sense where
+   binary32 reaches underflow *)
+let () =
+  register "utree" (fun _ o ->
+    let rmin = Floatq.float_of_q Cfr.regret_min_Q in
+    let fails = ref [] in
+    Array.iter (fun tok ->
+      match String.split_on_char '|' tok with
+      | [bk; roots; regs] ->
+        if regs = "P" then fails := Specfail ("c09_regret_vector_aborts", Printf.sprintf "information set %s (%s sampled nodes), denormal opponent weights" bk roots) :: !fails
+        else Stdlib.List.iter (fun er ->
+            match split '=' er with
+            | [et; bits] ->
+              let v = fbits bits in
+              if not (Float.is_finite v && v >= rmin) then
+                fails := Specfail ("c09_recorded_regret_finite_and_clamped",
+                                   Printf.sprintf "information set %s (%s sampled nodes) action %s: recorded %g (clamp %g)" bk roots et v rmin) :: !fails
+            | _ -> ()) (split ',' regs)
+      | _ -> ()) o;
+    (match !fails with a :: b :: c :: _ -> [a; b; c] | l -> l))
+
 let () =
   register "tree" (fun i o ->
     let d = deck () in
@@ -60,8 +98,12 @@ let () =
       (match String.split_on_char '.' n.bkey with
        | [past; _abs; fut] ->
          (match Tree.bucket_paths g h with
-          | Some (p, f) -> if string_of_n p <> past || string_of_n f <> fut then
-              mism (Printf.sprintf "node %d bucket paths = %s . %s (impl %s . %s)" k (string_of_n p) (string_of_n f) past fut)
+          | Some (p, f) -> if string_of_n p <> past || string_of_n f <> fut then begin
+              mism (Printf.sprintf "node %d bucket paths = %s . %s (impl %s . %s)" k (string_of_n p) (string_of_n f) past fut);
+              if string_of_n p = past then
+                spec "c10_menu_counts_raises_of_the_current_round" false
+                  (Printf.sprintf "node %d (%d edges deep): its bucket offers the menu %s; with the raises of the current betting round counted the abstract game offers %s" k (Stdlib.List.length h) fut (string_of_n f))
+            end
           | None -> mism (Printf.sprintf "node %d: model cannot build the bucket" k))
        | _ -> ());
       let menu = match Tree.node_menu g h with Some m -> m | None -> [] in
